@@ -241,7 +241,7 @@ func init() {
 			case 3:
 				return &TreeSpec{Name: name, Kind: "symlink", Target: "rel/target"}
 			case 4:
-				return &TreeSpec{Name: name, Kind: "symlink", Target: "/abs/dangling ü"}
+				return &TreeSpec{Name: name, Kind: "symlink", Target: "./sub/../x//y/."} // not in clean form: must be kept verbatim
 			case 5:
 				return &TreeSpec{Name: name, Kind: "fifo"}
 			case 6:
@@ -304,6 +304,13 @@ func init() {
 			// directories straddling the auto-shard estimate (names of 160 bytes + 36-byte CIDs: 1337/1338 entries)
 			for _, n := range []int{1336, 1337, 1338, 1339} {
 				ic := &ImportCase{Fam: "import", ID: fmt.Sprintf("wide-%d", n), Tree: &TreeSpec{Name: "root", Kind: "dir"}, Wide: n, NameLen: 160}
+				if err := runImportCase(ic, tr); err != nil {
+					return err
+				}
+			}
+			// plain (short-named) directories around typical readdir batch sizes, at the root and one level down
+			for _, n := range []int{255, 256, 257, 1023, 1024, 1025, 2048, 4096} {
+				ic := &ImportCase{Fam: "import", ID: fmt.Sprintf("batch-%d", n), Tree: &TreeSpec{Name: "root", Kind: "dir"}, Wide: n, NameLen: 8}
 				if err := runImportCase(ic, tr); err != nil {
 					return err
 				}
